@@ -49,7 +49,7 @@ CLAIMS = {
    tech="sibling agreement of the positional/variadic loops + dominance (must-pass-through) in Function.Call + who-may-call Spec.Impl/Spec.Type",
    text="Decides: both argument loops of returnTypeForValues and Call read the same Parameter flags with the same exits; variadic argument errors carry the adjusted index; Spec.Impl runs only in Call, dominated by a successful returnTypeForValues on the same args, by the unknown short-circuit exit and by a recovering defer; the implementation's result is returned only after TestConformance; the RefineResult defer is registered unconditionally for typed results.",
    note="Not decided: behaviour for all flag combinations at run time; panics inside the refinement defer itself. "),
- "C11": dict(rules=["C11.accessor-guards","C12.unknown-guards","C04.stdlib-mark-tolerance","C11.req-table","C11.nil-on-infinity","C11.float-nan","C11.negative-count","C11.compare-by-identity"],
+ "C11": dict(rules=["C11.accessor-guards","C12.unknown-guards","C04.stdlib-mark-tolerance","C11.req-table","C11.nil-on-infinity","C11.float-nan","C11.negative-count","C11.compare-by-identity","C11.type-accessor-kinds","C19.kind-contradiction"],
    tech="Spec-driven typestate: relational guard worlds over go/cfg for every Type/Impl callback of the function.Spec literals, entry states taken from the Parameter declarations, preconditions of partial accessors tabled and cross-checked against the accessors' own guards",
    text="Decides a necessary condition of 'never a Go panic / never an internal-panic error': in every Type and Impl callback of the standard functions, each partial accessor (AsString, AsBigFloat, True, LengthInt, ElementIterator, AsValueSlice/Map/Set, ...) called on an argument or on an element of an argument is dominated by guards excluding every state (null, unknown, marked) that the parameter declaration — or the nature of elements — admits; (*big.Float).Int results are dereferenced only under a finiteness test; floats that can be NaN reach NumberFloatVal only through IsNaN; counts decoded from arguments reach strings.Repeat/make/slice bounds only after a sign test; cty values and types are compared with == only against package singletons.",
    note="Not decided: totality against Go run-time panics that need value ranges (index arithmetic, format state machine, datetime); agreement of the static and dynamic return type predictions (needs evaluation of the Type callbacks); helpers that receive values through parameters of their own are analysed only where the subject can be attributed to args. "),
